@@ -46,3 +46,7 @@ RULE = RULE + " Round 10: the frequency ranges are handed over as a list, a tupl
 # every child process of this property (workers, the determinism worker, replays, warm-up) may use up to 4 numba threads;
 # a scenario runs on 1 unless it says otherwise ("numba_threads", see sim.core._set_numba_threads)
 CHILD_ENV = {"NUMBA_NUM_THREADS": "4"}
+
+# dimensions added in seeded round 11
+PROBES = list(PROBES) + ["numba-threads>1"]
+RULE = RULE + " Round 11: 0.4% of cleaning runs (1.2% thorough) use 1009-1031 channels x 4-5 thousand samples in one block, masks at both band edges, on 3-4 numba threads (children get NUMBA_NUM_THREADS=4; every other scenario runs on 1 thread)."
